@@ -46,6 +46,8 @@ theorem guarded_load_never_panics (g : Graph) (tolerant : Bool) :
     · simp
     · split
       · simp
+      split
+      · simp
       · simp
       · rename_i tag fields hg
         apply fold_ne g tolerant (load g tolerant fuel (k :: chain)) .panic (fieldOutcome_ne_panic g tolerant) fields (.ok ()) (by simp)
@@ -69,6 +71,10 @@ theorem load_fuel_succ (g : Graph) (tol : Bool) :
       simp only [hk, if_false] at h
       split
       · rfl
+      rename_i hlen
+      simp only [hlen, if_false] at h
+      split
+      · rfl
       · rfl
       · rename_i tag fields hg
         simp only [hg] at h
@@ -87,6 +93,13 @@ theorem load_stable (g : Graph) (tol : Bool) (k : Nat) (extra : Nat) :
     rw [← ih]
     exact load_fuel_succ g tol _ [] k h
 
+/-- **Nesting beyond the supported depth**: the guard also refuses a 65th nested load, so the native
+    stack a load needs is bounded by a constant of the code: fuel `maxNest + 1 = 65` suffices for every
+    object table, however long its chains of distinct objects are. -/
+theorem load_depth_bounded (g : Graph) (tolerant : Bool) (k : Nat) :
+    load g tolerant (maxNest + 1) [] k ≠ .oof :=
+  load_ne_oof_depth g tolerant (maxNest + 1) [] k (by simp) (by simp)
+
 /-- non-vacuity: a page whose /Parent is a /Pages node whose /Parent is the page: the guard answers
     "Recursive reference" (strict), and tolerant mode turns the optional /Parent into `None` -/
 example : load [.node 1 [⟨1, false, some 0⟩], .node 0 [⟨0, true, some 0⟩]] false 3 [] 0 = .err := by decide
@@ -94,6 +107,9 @@ example : load [.node 1 [⟨1, false, some 0⟩], .node 0 [⟨0, true, some 0⟩
 /-- a self-referencing required field is an error in both modes; an acyclic chain loads -/
 example : load [.node 0 [⟨0, false, none⟩]] true 2 [] 0 = .err := by decide
 example : load [.node 0 [⟨1, false, none⟩, ⟨2, false, none⟩], .node 0 [⟨2, false, none⟩], .node 0 []] false 4 [] 0 = .ok () := by decide
+/-- a chain of 64 distinct objects that each load the next one still loads; a chain of 65 does not -/
+example : load ((List.range 63).map (fun i => Obj.node 0 [⟨i + 1, false, none⟩]) ++ [.node 0 []]) false 65 [] 0 = .ok () := by decide +kernel
+example : load ((List.range 64).map (fun i => Obj.node 0 [⟨i + 1, false, none⟩]) ++ [.node 0 []]) false 65 [] 0 = .err := by decide +kernel
 
 -- ===================================================================================================
 -- 2. objects whose value is a reference (D32)
@@ -244,6 +260,24 @@ theorem csLoadOld_diverges : ∀ fuel, csLoadOld selfDeviceN fuel 5 0 = .oof := 
 example : csLoad selfDeviceN 5 0 = .err := by decide
 example : csLoad [.indexed 1, .separation 2, .deviceN 3, .indexed 4, .indexed 5, .name] 5 0 = .ok () := by decide
 example : csLoad [.indexed 1, .separation 2, .deviceN 3, .indexed 4, .indexed 5, .indexed 6, .name] 5 0 = .err := by decide
+
+/-- **Appearance dictionaries** (resolved, not loaded through `get`): total thanks to the depth budget. -/
+theorem appearance_total (g : List AObj) (k : Nat) : apLoad g 2 k ≠ .panic ∧ apLoad g 2 k ≠ .oof :=
+  apLoad_ne_bad g 2 k
+
+/-- `10 0 obj << /On 10 0 R >>` -/
+def selfAppearance : List AObj := [.dict [0]]
+
+/-- **Before the repair** the appearance dictionary that contains itself never returns. -/
+theorem apLoadOld_diverges : ∀ fuel, apLoadOld selfAppearance fuel 0 = .oof := by
+  intro fuel
+  induction fuel with
+  | zero => rfl
+  | succ fuel ih => simpa [apLoadOld, selfAppearance] using ih
+
+example : apLoad selfAppearance 2 0 = .err := by decide
+example : apLoad [.dict [1, 2], .stream, .dict [1]] 2 0 = .ok () := by decide
+example : apLoad [.dict [1], .dict [2], .dict [3], .stream] 2 0 = .err := by decide
 
 -- ===================================================================================================
 -- 6. the /Prev loop
@@ -456,6 +490,7 @@ def C14_model_full : Prop :=
   (∀ (g : List TNode) (root : TNode), Out.Returns (walkTree g root).out) ∧
   (∀ (g : List PNode) (kids : List Nat) (n : Nat), Out.Returns (page g true kids n).out) ∧
   (∀ (g : List CObj) (k : Nat), Out.Returns (csLoad g 5 k)) ∧
+  (∀ (g : List AObj) (k : Nat), Out.Returns (apLoad g 2 k)) ∧
   (∀ (secs : Sections) (start : Nat), Out.Returns (readChain secs (secs.length + 1) start)) ∧
   (∀ bits tol num width data, Out.Returns (xrefSection bits true tol num width data)) ∧
   (∀ bits first offsets index len, Out.Returns (objSlice bits true first offsets index len)) ∧
@@ -465,12 +500,13 @@ def C14_model_full : Prop :=
   (∀ c r, Out.Returns (faxDims true c r))
 
 theorem C14_model_total : C14_model_full := by
-  refine ⟨?_, ?_, ?_, ?_, ?_, ?_, ?_, ?_, ?_, ?_, ?_, ?_⟩
+  refine ⟨?_, ?_, ?_, ?_, ?_, ?_, ?_, ?_, ?_, ?_, ?_, ?_, ?_⟩
   · intro g tol k; exact ⟨guarded_load_never_panics g tol _ _ _, guarded_load_terminates g tol k⟩
   · intro g p; exact ⟨(fromPrim_total g p).2, (fromPrim_total g p).1⟩
   · intro g root; exact walk_total g root
   · intro g kids n; exact page_total g kids n
   · intro g k; exact colorspace_total g k
+  · intro g k; exact appearance_total g k
   · intro secs start; exact ⟨(prev_loop_terminates secs start).2, (prev_loop_terminates secs start).1⟩
   · intro bits tol num width data
     exact ⟨(xref_section_total bits tol num width data).1, (xref_section_total bits tol num width data).2.1⟩
